@@ -941,3 +941,41 @@ def exists_element_with(F, f, facts, check):
         if tp and all(check(fs) for fs in tp):
             return kk[2][0]
     return None
+
+
+def rpc_verifier_never_awaited(F):
+    """Reviewed invariant of the ONC-RPC call parser (used by C01 and C16): once the verifier-length word is complete
+    the call is complete - RpcState::Verif is left in the same step, whatever the announced verifier length.
+    Structurally: the VerifLen arm assigns End, and no branch in it looks at the length just read (data_len).
+    -> (ok, detail, loc)"""
+    rp = F.fn('proto::rpc::rpc_parse')
+    names = [v['name'] for v in F.adts['proto::rpc::RpcState']['variants']]
+    disp = None
+    for bi in range(rp.n):
+        se = rp.switch_edges(bi)
+        if se and not rp.blocks[bi]['cleanup'] and isinstance(se[0], tuple) and se[0][0] == 'discr' and 'state' in short(se[0]) and len(se[2]) >= 8:
+            disp = (bi, se)
+    if disp is None:
+        return False, 'state dispatch of rpc_parse not found', '%s:%d' % (rp.file, rp.line)
+    bi, (d, edges, vals) = disp
+    head = [s_ for (s_, v) in edges if v is not None and v < len(names) and names[v] == 'VerifLen']
+    if len(head) != 1:
+        return False, 'VerifLen arm not found', rp.loc(bi)
+    dom = rp.dominators()
+    arm = {b for b in dom if head[0] in dom[b]}
+    sets_end = False
+    looks = []
+    for b in sorted(arm):
+        if rp.blocks[b]['cleanup']:
+            continue
+        for i, st in enumerate(rp.blocks[b]['stmts']):
+            fl = [p.get('f') for p in st['lhs']['p'] if isinstance(p, dict)]
+            if fl == ['state']:
+                a = peel(rp.rvalue(st['rv'], (b, i)), unwraps=False)
+                if isinstance(a, tuple) and a[0] == 'agg' and str(a[1]).endswith('::End'):
+                    sets_end = True
+        se = rp.switch_edges(b)
+        if se and 'data_len' in short(se[0]):
+            looks.append(rp.loc(b))
+    ok = sets_end and not looks
+    return ok, 'VerifLen arm assigns End: %s; branches on the verifier length in that arm: %s' % (sets_end, looks or 'none'), rp.loc(head[0])
